@@ -534,6 +534,14 @@ class HistogramND(HistogramBase):
         return True
 
     @classmethod
+    def _kwargs_from_dict(cls, a_dict):
+        kwargs = HistogramBase._kwargs_from_dict(a_dict)
+        if "missed" in kwargs:
+            # Exported as a one-element list
+            kwargs["missed"] = np.asarray(kwargs["missed"]).sum()
+        return kwargs
+
+    @classmethod
     def from_calculate_frequencies(
         cls, data, binnings, weights=None, *, dtype=None, **kwargs
     ):
